@@ -59,6 +59,12 @@ func scenarios(thorough bool, tarDir string) []Scen {
 	out = append(out, Scen{Name: "populated/tagdel+close", Pre: populated, Ops: []string{"tagdel:b", "close"}})
 	out = append(out, Scen{Name: "populated/mandel+close", Pre: populated, Ops: []string{"mandel:G3", "close"}})
 	out = append(out, Scen{Name: "populated/refdel+close", Pre: populated, Ops: []string{"refdel:a", "close"}})
+	// a subject with two referrers: the list is rewritten, not removed
+	two := append(append([]string{}, populated...), "refput2:a")
+	out = append(out, Scen{Name: "two-referrers/refdel", Pre: two, Ops: []string{"refdel:a"}})
+	out = append(out, Scen{Name: "two-referrers/refdel2", Pre: two, Ops: []string{"refdel2:a"}})
+	out = append(out, Scen{Name: "two-referrers/refdel+close", Pre: two, Ops: []string{"refdel:a", "close"}})
+	out = append(out, Scen{Name: "populated/refput2", Pre: populated, Ops: []string{"refput2:a"}})
 	if thorough {
 		two := []string{"push:G1:c", "tagdel:a", "copy:G3:c", "refput:a", "mandel:G3", "push:G3:a"}
 		for _, a := range two {
